@@ -643,7 +643,7 @@ func (env *SpecEnv) binary(e *Expr) (SV, error) {
 		return SV{t: arith(op, a.t, b.t), typ: typ, num: a.num && b.num}, nil
 	case "/":
 		if a.t.Sort == sortReal {
-			return SV{t: mk("/", sortReal, a.t, b.t), typ: a.typ}, nil
+			return SV{t: realDiv(a.t, b.t), typ: a.typ}, nil
 		}
 		return SV{t: goDiv(a.t, b.t), typ: a.typ}, nil
 	case "%":
@@ -877,6 +877,70 @@ func (env *SpecEnv) call(e *Expr) (SV, error) {
 		env.f.root.hyps = append(env.f.root.hyps, tImp(tGt(hi.t, lo.t), tEq(r, tStore(r1, hm1, tTrue()))))
 		env.f.root.hyps = append(env.f.root.hyps, tImp(tLe(hi.t, lo.t), tEq(r, tConstArr(srt, tFalse()))))
 		return SV{t: r}, nil
+	case "resultof":
+		// resultof("Callee", k [, i]): value returned by the k-th static call of Callee in this function
+		if len(e.Args) < 2 || e.Args[0].Kind != "str" || e.Args[1].Kind != "int" {
+			return SV{}, fmt.Errorf("resultof(\"Callee\", k [, i])")
+		}
+		k, _ := strconv.Atoi(e.Args[1].Name)
+		idx := 0
+		if len(e.Args) == 3 {
+			idx, _ = strconv.Atoi(e.Args[2].Name)
+		}
+		n := 0
+		for _, b := range env.f.fn.Blocks {
+			for _, ins := range b.Instrs {
+				c, ok := ins.(*ssa.Call)
+				if !ok || !siteMatches(e.Args[0].Name, staticDisplay(&c.Call)) {
+					continue
+				}
+				n++
+				if n != k {
+					continue
+				}
+				v, ok := env.f.vals[c]
+				if !ok {
+					return SV{}, fmt.Errorf("resultof(%s,%d): call not executed yet at this point", e.Args[0].Name, k)
+				}
+				rs := c.Call.Signature().Results()
+				switch x := v.(type) {
+				case *Term:
+					return SV{t: x, typ: rs.At(0).Type()}, nil
+				case *Tuple:
+					if idx < len(x.Elems) {
+						if t, ok := x.Elems[idx].(*Term); ok {
+							return SV{t: t, typ: rs.At(idx).Type()}, nil
+						}
+					}
+				}
+				return SV{}, fmt.Errorf("resultof(%s,%d): unsupported result shape", e.Args[0].Name, k)
+			}
+		}
+		return SV{}, fmt.Errorf("resultof: call site %s#%d not found (stale contract)", e.Args[0].Name, k)
+	case "strIndex":
+		a, err := argv(0)
+		if err != nil {
+			return SV{}, err
+		}
+		b, err := argv(1)
+		if err != nil {
+			return SV{}, err
+		}
+		return SV{t: strIndex(env.f, env.st, a.t, b.t), typ: intT}, nil
+	case "substr":
+		a, err := argv(0)
+		if err != nil {
+			return SV{}, err
+		}
+		lo, err := argv(1)
+		if err != nil {
+			return SV{}, err
+		}
+		hi, err := argv(2)
+		if err != nil {
+			return SV{}, err
+		}
+		return SV{t: uf("str_sub", sortStr, a.t, lo.t, hi.t), typ: types.Typ[types.String]}, nil
 	case "seconds":
 		a, err := argv(0)
 		if err != nil {
